@@ -41,13 +41,17 @@ var input = map[string][]cluster.Record{
 	"b": {rec("b", 0, keys[0]), rec("b", 1, keys[1]), rec("b", 2, keys[2])},
 }
 
-type params struct{ bound int }
+type params struct {
+	bound int
+	chain bool // tiny memtables (tables in the savepoint) and a second savepoint taken by the restored job
+}
 
 func Run(k *report.Check) {
-	k.Rule = "cluster simulation (real Job, operators, source runners; one storage namespace for job files and DKV files): W in {1,2} workers process two splits of 8+3 records; a savepoint is requested when s event batches have been delivered (s in {0,1,2,4,7}), with the periodic checkpoint tick before it, racing with it (tick first, savepoint while the checkpoint is pending) or absent; operator acknowledgements in either order; RPCs are delivered oldest first plus at most `bound` out-of-order deliveries. Then every file outside the savepoints directory (all DKV files, all job checkpoints) is deleted and a new job is started from the savepoint URI with W' in {1,2} fresh workers. Oracle: the savepoint folds into a pending checkpoint (no second StartCheckpoint round, one id), the original job still finishes with the failure-free state, the restored job's handlers never see a record twice nor miss an earlier one, its final state read back from its DKV checkpoints equals the failure-free fold, and its source positions equal the savepoint's. non-trivial = distinct (W, W', request point, tick relation, ack order) runs in which the restored job re-read input past the savepoint and was handed non-empty state"
+	k.Rule = "cluster simulation (real Job, operators, source runners; one storage namespace for job files and DKV files): W in {1,2} workers process two splits of 8+3 records; a savepoint is requested when s event batches have been delivered (s in {0,1,2,4,7}), with the periodic checkpoint tick before it, racing with it (tick first, savepoint while the checkpoint is pending) or absent; operator acknowledgements in either order; RPCs are delivered oldest first plus at most `bound` out-of-order deliveries. Then every file outside the savepoints directory (all DKV files, all job checkpoints) is deleted and a new job is started from the savepoint URI with W' in {1,2} fresh workers. Oracle: the savepoint folds into a pending checkpoint (no second StartCheckpoint round, one id), the original job still finishes with the failure-free state, the restored job's handlers never see a record twice nor miss an earlier one, its final state read back from its DKV checkpoints equals the failure-free fold, and its source positions equal the savepoint's. A second part runs with memtables of a few entries (the savepoints then consist of table files) and lets the restored job take a savepoint of its own, from which a third job with W'' workers is started after another wipe. non-trivial = distinct (W, W', request point, tick relation, ack order) runs in which the restored job re-read input past the savepoint and was handed non-empty state"
 	k.Assumptions = []string{"in-memory storage namespace standing for a shared directory / bucket", "interleavings inside components are the component checks' subject"}
 	k.Budget(120, 1200)
 	b := k.Pick(1, 2)
+	k.ExploreSched("savepoint-chain/tables", mc.Config{Bound: 0, RecycleAfter: 1500, Deadline: k.Within(0.3)}, params{chain: true}, body)
 	k.ExploreSched(fmt.Sprintf("savepoint/deviations<=%d", b), mc.Config{Bound: b, RecycleAfter: 1500}, params{bound: b}, body)
 }
 
@@ -116,14 +120,34 @@ func body(c *mc.Ctx) {
 	p := c.Param.(params)
 	w1 := 1 + c.Choose(2)
 	w2 := 1 + c.Choose(2)
-	reqAt := []int{0, 1, 2, 4, 7}[c.Choose(5)]
-	tickMode := c.Choose(3) // 0: no periodic tick before; 1: tick completes first (tick when reqAt-1 batches); 2: tick right before the request (savepoint folds into the pending checkpoint)
+	w3 := 0
+	early := false // chain: the restored job takes its savepoint as soon as it runs
+	var reqAt, tickMode int
+	if p.chain {
+		// memtables of a few entries: the operators' checkpoints (and so the savepoints) consist of
+		// table files, and an operator restored from two operators' checkpoints inherits the
+		// tables of both (every database numbers its tables from zero)
+		shim.SetGlobalTune("MemTableSize", uint64([]int{40, 120}[c.Choose(2)]))
+		// level 0 is compacted late, so that inherited tables survive until the next savepoint
+		shim.SetGlobalTune("L0Trigger", uint64([]int{4, 12}[c.Choose(2)]))
+		defer shim.ClearGlobalTune()
+		w3 = 1 + c.Choose(2)
+		reqAt = []int{4, 7, 10}[c.Choose(3)]
+		early = c.Choose(2) == 1
+	} else {
+		reqAt = []int{0, 1, 2, 4, 7}[c.Choose(5)]
+		tickMode = c.Choose(3)
+	}
+	_ = tickMode // 0: no periodic tick before; 1: tick completes first (tick when reqAt-1 batches); 2: tick right before the request (savepoint folds into the pending checkpoint)
 	reverseAcks := w1 > 1 && c.Choose(2) == 1
 	cfg := &cluster.Config{KeyGroups: keyGroups, Splits: input, SplitOrder: []string{"a", "b"}, Workers: w1, ReadSize: 1, Batching: batching.EventBatcherParams{MaxSize: 1, MaxDelay: 10 * time.Millisecond}}
+	if p.chain {
+		c.Op("[chain: workers %d -> %d -> %d, memtable %d bytes, level-0 trigger %d, second savepoint %s]", w1, w2, w3, shim.TuneValue("MemTableSize"), shim.TuneValue("L0Trigger"), map[bool]string{true: "as soon as the restored job runs", false: "when the restored job has consumed its input"}[early])
+	}
 	c.Op("[workers %d -> %d; savepoint requested after %d event batches; periodic tick: %s; operator acks %s]", w1, w2, reqAt,
 		[]string{"none", "one batch earlier", "immediately before the request"}[tickMode], map[bool]string{true: "newest first", false: "in order"}[reverseAcks])
 	var cl *cluster.Cluster
-	var note string
+	var note, chainNote string
 	var spID uint64
 	var spErr error
 	spDone := false
@@ -269,6 +293,11 @@ func body(c *mc.Ctx) {
 		finalTicked = false
 		base = spID
 		ok = run(c, cl, false, 600, false, nil, func(idle int) bool {
+			if early {
+				// the restored job is running (its operators have loaded the savepoint's tables):
+				// its own savepoint is requested now, before compaction rewrites what it inherited
+				return cl.Clock.Active("checkpointing")
+			}
 			if idle < 2 || !cl.InputConsumed() || !cl.Clock.Active("checkpointing") {
 				return false
 			}
@@ -284,7 +313,7 @@ func body(c *mc.Ctx) {
 		if !ok && len(cl.Failures) == 0 {
 			cl.Failures = append(cl.Failures, fmt.Sprintf("the job restored from the savepoint did not finish the input and a checkpoint (queued: %v)", cl.Pending()))
 		}
-		if len(cl.Failures) == 0 {
+		if len(cl.Failures) == 0 && !early {
 			got, errs := cl.StateOf(cl.CompletedCheckpoint())
 			cl.Failures = append(cl.Failures, errs...)
 			if g, w := cluster.RenderState(got), cluster.RenderState(cl.ExpectedState(nil)); g != w && len(errs) == 0 {
@@ -292,6 +321,98 @@ func body(c *mc.Ctx) {
 			}
 		}
 		note = fmt.Sprint(cl.StateLoaded() > 0, cl.Restores)
+		if p.chain && len(cl.Failures) == 0 {
+			// second generation: the restored job (all input consumed) takes a savepoint of its own
+			var id2 uint64
+			var err2 error
+			done2 := false
+			c.Op("CreateSavepoint (by the restored job)")
+			shim.Go(func() {
+				id2, err2 = cl.Job.HandleCreateSavepoint(context.Background())
+				done2 = true
+			})
+			var uri2 string
+			ok = run(c, cl, false, 500, false, nil, func(idle int) bool {
+				if !done2 || err2 != nil {
+					return done2 && err2 != nil
+				}
+				uri, err := cl.Job.HandleGetSavepointURI(context.Background(), id2)
+				if err == nil {
+					uri2 = uri
+					return true
+				}
+				return false
+			})
+			if err2 != nil {
+				cl.Failures = append(cl.Failures, fmt.Sprintf("CreateSavepoint by the restored job failed: %v", err2))
+			} else if !ok && len(cl.Failures) == 0 {
+				cl.Failures = append(cl.Failures, fmt.Sprintf("the restored job's savepoint never became available (queued: %v)", cl.Pending()))
+			}
+			if len(cl.Failures) == 0 {
+				cl.Stop()
+				cl.Quiesce()
+				cl.WipeWorkingStorage()
+				ssts := 0
+				for _, name := range cl.Loc.Names() {
+					if strings.HasPrefix(name, strings.TrimSuffix(uri2, "job.savepoint")) && strings.HasSuffix(name, ".sst") {
+						ssts++
+					}
+				}
+				chainNote = fmt.Sprintf("%d table files in the second savepoint", ssts)
+				if ssts > 0 {
+					c.Note("second_generation_savepoints_with_table_files")
+				}
+				if ssts > 1 {
+					c.Note("second_generation_savepoints_with_2plus_table_files")
+				}
+				c.Op("wipe working storage (%s); third job from %s with %d workers", chainNote, strings.TrimPrefix(uri2, "savepoints/"), w3)
+				cfg.Workers = w3
+				cl.ResetInput()
+				cl.Applied = map[string]int{}
+				func() {
+					defer func() {
+						if r := recover(); r != nil {
+							if s, ok := r.(string); ok && !strings.HasPrefix(s, "mc: ") {
+								cl.Failures = append(cl.Failures, "starting the job from the second savepoint panics: "+s)
+								return
+							}
+							panic(r)
+						}
+					}()
+					cl.StartJob(uri2)
+				}()
+				if len(cl.Failures) == 0 {
+					for i := 0; i < w3; i++ {
+						cl.AddWorker()
+					}
+					finalTicked = false
+					base = id2
+					ok = run(c, cl, false, 600, false, nil, func(idle int) bool {
+						if idle < 2 || !cl.InputConsumed() || !cl.Clock.Active("checkpointing") {
+							return false
+						}
+						if !finalTicked {
+							finalTicked = true
+							c.Op("tick(final, third job)")
+							shim.Go(func() { cl.Clock.Tick("checkpointing") })
+							return false
+						}
+						cp := cl.CompletedCheckpoint()
+						return cp != nil && cp.Id > base
+					})
+					if !ok && len(cl.Failures) == 0 {
+						cl.Failures = append(cl.Failures, fmt.Sprintf("the job restored from the second savepoint did not reach a checkpoint (queued: %v)", cl.Pending()))
+					}
+					if len(cl.Failures) == 0 {
+						got, errs := cl.StateOf(cl.CompletedCheckpoint())
+						cl.Failures = append(cl.Failures, errs...)
+						if g, w := cluster.RenderState(got), cluster.RenderState(cl.ExpectedState(nil)); g != w && len(errs) == 0 {
+							cl.Failures = append(cl.Failures, fmt.Sprintf("the job restored from the savepoint of the restored job ends with state {%s}, the failure-free fold is {%s}", g, w))
+						}
+					}
+				}
+			}
+		}
 		cl.Stop()
 	})
 	if len(cl.Failures) > 0 {
@@ -306,7 +427,7 @@ func body(c *mc.Ctx) {
 			sig = "savepoint-not-folded"
 		case strings.Contains(f, "never became available"), strings.Contains(f, "CreateSavepoint failed"):
 			sig = "savepoint-not-created"
-		case strings.Contains(f, "restored from the savepoint"):
+		case strings.Contains(f, "restored from the savepoint"), strings.Contains(f, "second savepoint"), strings.Contains(f, "restored job"):
 			sig = "restored-job-wrong"
 		case strings.Contains(f, "original job"), strings.Contains(f, "that took the savepoint"):
 			sig = "original-job-disturbed"
@@ -314,6 +435,9 @@ func body(c *mc.Ctx) {
 			sig = "restore-panics"
 		}
 		c.FailSig(sig, "%s", strings.Join(cl.Failures, "; "))
+	}
+	if p.chain && chainNote != "" {
+		c.Nontrivial(fmt.Sprint("chain", w1, w2, w3, reqAt, early, reverseAcks, chainNote))
 	}
 	if cl.StateLoaded() > 0 {
 		c.Note("restored_jobs_handed_non_empty_state")
